@@ -697,6 +697,26 @@ def _check_config(n, degree, io, bias, X, flag="bool"):
                             "name of column %d does not denote the monomial in it" % j, nm,
                             "exponents %s" % [int(v) for v in pw]))
                 break
+        # fitted on a matrix of one storage type, used on another (counts at fit, ratios at transform and the reverse):
+        # the features of the matrix GIVEN to transform, as PolynomialFeatures computes them
+        if (X == numpy.round(X)).all():
+            Xi, Xf = X.astype(numpy.int64), X.astype(float) * 0.5 + 0.25
+            for a, b, tag in ((Xi, Xf, "fit int64, transform float64"), (Xf.astype(numpy.float32), Xf, "fit float32, transform float64"),
+                              (Xf, Xi, "fit float64, transform int64")):
+                try:
+                    got = numpy.asarray(ExtendedFeatures(kind=kind, poly_degree=degree, poly_interaction_only=conv(io),
+                                                         poly_include_bias=conv(bias)).fit(a).transform(b), dtype=float)
+                    want = numpy.asarray(PolynomialFeatures(degree=degree, interaction_only=io, include_bias=bias).fit(a)
+                                         .transform(b), dtype=float)
+                except Exception as e:  # noqa: BLE001
+                    bad.append((site + ".transform:raises:other-dtype-than-fit", "transform raises on a matrix of another "
+                                "dtype than the one given to fit (%s)" % tag, "%s: %s" % (type(e).__name__, e), "the features"))
+                    break
+                if got.shape != want.shape or not numpy.array_equal(got, want):
+                    bad.append((site + ".transform:column-differs:other-dtype-than-fit", "transform of a matrix whose dtype "
+                                "differs from the one given to fit (%s) is not PolynomialFeatures'" % tag,
+                                got[:2].tolist(), want[:2].tolist()))
+                    break
         # the caller's own feature names (tokens that contain one another, default-like names in another order)
         for custom in (["a", "ab", "b", "x1", "x0", "max1", "min1", "x10", "c", "x2", "x11", "d"][:n],
                        [chr(ord("a") + i) for i in range(n)],
